@@ -94,7 +94,7 @@ def check(a):
         n = int(subprocess.run([BINA, '--count', '--mode', fm, '--seed', str(seed)], stdout=subprocess.PIPE, text=True).stdout.strip() or 0)
         phases.append((fm, n))
     cands = []
-    totals = dict(runs=0, steps=0, reads=0, seeks=0, writes=0, short_reads=0, eio=0, seekfail=0, eof_hits=0, file_faults=0, ab_pairs=0, ab_mismatch=0)
+    totals = dict(runs=0, steps=0, reads=0, seeks=0, writes=0, short_reads=0, eio=0, seekfail=0, eof_hits=0, file_faults=0, pre=0, ab_pairs=0, ab_mismatch=0)
     outcomes, fault_kinds, states, traces, nontrivial = {}, {}, set(), set(), set()
     samples = []
     skipped = 0
@@ -114,7 +114,7 @@ def check(a):
         resb = {r['i']: r for r in pb.results}
         for r in pa.results:
             totals['runs'] += 1
-            for k in ('steps', 'reads', 'seeks', 'writes', 'short_reads', 'eio', 'seekfail', 'eof_hits', 'file_faults'):
+            for k in ('steps', 'reads', 'seeks', 'writes', 'short_reads', 'eio', 'seekfail', 'eof_hits', 'file_faults', 'pre'):
                 totals[k] += r.get(k, 0)
             outcomes[r['cls'].split(':')[0]] = outcomes.get(r['cls'].split(':')[0], 0) + 1
             for fk in r.get('faults', []):
@@ -234,7 +234,7 @@ def check(a):
         seeds=dict(base=seed, plans=totals['runs']),
         simulated_time='device steps served (no clocks in gil): %d' % totals['steps'],
         device_calls=dict(reads=totals['reads'], seeks=totals['seeks'], writes=totals['writes']),
-        faults_fired=dict(file_mutations_applied=totals['file_faults'], eio=totals['eio'], seek_failures=totals['seekfail'], short_deliveries=totals['short_reads'],
+        faults_fired=dict(file_mutations_applied=totals['file_faults'], eio=totals['eio'], seek_failures=totals['seekfail'], destinations_with_earlier_output=totals['pre'], short_deliveries=totals['short_reads'],
                           eof_reached_by_reader=totals['eof_hits']),
         faults_generated=fault_kinds, outcomes=outcomes, distinct_traces=len(traces), distinct_abstract_states=len(states),
         per_format=per_fmt, ab_pairs_compared=totals['ab_pairs'], ab_mismatches_seen=totals['ab_mismatch'],
